@@ -1,5 +1,8 @@
 import Mp.ProofsS
+import Mp.ParseLogicProofs
 /-! C03 — property theorems (proved in the imported modules; statements are checked there, axioms audited here). -/
 #print axioms Mp.sLogic_bool
 #print axioms Mp.sLParts_bool
 #print axioms Mp.sLParts_truth
+#print axioms Mp.logicLoop_keeps
+#print axioms Mp.parseLogic_type
